@@ -118,7 +118,7 @@ func childBlocksAsRoots(root *commonmark.RootBlock, parent *commonmark.Block, sk
 	return out
 }
 
-var wsBeforeClose = regexp.MustCompile(`[ \t\r\n]+(</p>|</h[1-6]>|</code></pre>|</li>|</blockquote>)`)
+var wsBeforeClose = regexp.MustCompile(`[ \t\r\n]+(</p>|</h[1-6]>|</li>|</blockquote>)`)
 
 // normFinal: the normalisation "modulo insignificant whitespace" used for the final-newline clause:
 // whitespace directly before a closing block tag and at the very end is dropped.
